@@ -171,6 +171,8 @@ def run_session(cfg, seed, script, fate_factory, phases_gap=None, yield_on_send=
 
         async def reader(side, client, sub):
             try:
+                if getattr(cfg, "read_delay", None) and cfg.read_delay.get(side):
+                    await anyio.sleep(quant(cfg.read_delay[side]))      # an application that is busy before it starts reading
                 while True:
                     d = await client.recv(sub)
                     got[(side, sub)].append(d)
